@@ -109,8 +109,15 @@ pub fn draw_cue_text(ch: &Choices, total: u64) -> String {
         if ch.draw("meta.cue.flags", 3) == 2 {
             t.push_str("    FLAGS PRE\n");
         }
-        if ch.draw("meta.cue.isrc", 3) == 2 {
-            t.push_str("    ISRC ABCDE7654321\n");
+        match ch.draw("meta.cue.isrc", 6) {
+            2 => t.push_str("    ISRC ABCDE7654321\n"),
+            // the dashed presentation form of the same 12 characters
+            3 => {
+                t.push_str("    ISRC AA-6Q7-20-00047\n");
+                crate::monitor::probe("cue_isrc_with_dashes");
+            }
+            4 => t.push_str("    ISRC aa6q72000047\n"),
+            _ => {}
         }
         let base = k * per;
         let mut idx = 1;
